@@ -157,7 +157,11 @@ class Motorway(M.Network):
     def ramps(self):
         return [o for o in self.origins if isinstance(o, M.MeteredOnRamp)]
 
-    @invalidate_cache(ramps)
+    # ... and one built from a helper function (`cached_property(func)`, no decorator syntax): its attribute name is only
+    # known once the class body has been executed
+    ramp_nodes = cached_property(lambda self: {o_: n_ for o_, n_ in self.origins.items() if isinstance(o_, M.MeteredOnRamp)})
+
+    @invalidate_cache(ramps, ramp_nodes)
     def add_origin(self, origin, node):
         return super().add_origin(origin, node)
 
